@@ -370,7 +370,8 @@ bool Directory::copy(const String& from, const String& to)
 		if( m != n)
 			return false;
 	}while (n == sizeof(buffer));
-	return true;
+	dst.flush(); // buffered bytes that cannot be written (disk full) must not count as copied
+	return !dst.error();
 }
 
 bool Directory::move(const String& from, const String& to)
